@@ -51,6 +51,19 @@ Proof.
   split; [reflexivity | apply report_json_ok; exact HG].
 Qed.
 
+(* the report at EVERY verbosity (the `verbosity` argument of check_safety / to_dict only filters the text of
+   the findings): JSON-serialisable, and its severity entry is the verdict whatever the verbosity *)
+Theorem C19_report_every_verbosity : forall crepr std protos s,
+  exists fs, analyze crepr std protos s = Some fs /\
+    forall v, json_ok (to_dict v fs) = true /\
+              exists a d, to_dict v fs = JDict [("severity", JStr (sev_name (verdict fs))); ("analysis", JStr a);
+                                                ("detailed_results", d)]%string.
+Proof.
+  intros crepr std protos s. destruct (analyze_good crepr std protos s) as (fs & HA & HG).
+  exists fs. split; [exact HA|]. intros v. split; [apply report_json_ok; exact HG|].
+  unfold to_dict. eexists. eexists. reflexivity.
+Qed.
+
 (* a verdict above the threshold is refused with the report (the loader's comparison is Severity.__le__) *)
 Theorem C19_loader_refuses : forall thr fs,
   sev_le (verdict fs) thr = false -> loader thr fs = Unsafe (to_dict default_verbosity fs).
@@ -104,3 +117,4 @@ Print Assumptions C19_report_wellformed.
 Print Assumptions C19_loader_refuses.
 Print Assumptions C19_no_raw_yield.
 Print Assumptions C19_sites_modelled.
+Print Assumptions C19_report_every_verbosity.
